@@ -11,7 +11,9 @@ package http2
 import (
 	"fmt"
 	"math/rand/v2"
+	"net/http"
 	"testing"
+	"time"
 
 	"golang.org/x/net/internal/verifrt"
 	"golang.org/x/net/internal/verifrt/h2ref"
@@ -25,6 +27,8 @@ type vsrvC15Desc struct {
 	InitWin int64    `json:"initial_window"`
 	Steps   int      `json:"steps"`
 	Script  []string `json:"script"`
+	// server-ping mode: Server.ReadIdleTimeout
+	ReadIdle time.Duration `json:"read_idle_timeout,omitempty"`
 }
 
 type vsrvMalformed struct {
@@ -413,6 +417,52 @@ func vsrvC15Script(s *vsrvSession, rng *rand.Rand, d *vsrvC15Desc) {
 		id := x.newID()
 		s.setPlan(id, []vsrvOp{{Kind: 'w', N: 10}})
 		s.cliHeaders(id, true, vsrvGetFields("/te", vsrvField{"te", "trailers"}))
+	case "server-ping":
+		// The server's own keep-alive PING (Server.ReadIdleTimeout) is outstanding while client
+		// PINGs arrive, one of them carrying the very same opaque data: it is a PING like any
+		// other and is owed an ACK; only a frame with the ACK flag answers the server's.
+		for round := 0; round < 1+rng.IntN(3); round++ {
+			s.settle()
+			s.mu.Lock()
+			before := len(s.srvPings)
+			s.mu.Unlock()
+			time.Sleep(d.ReadIdle + time.Millisecond)
+			s.settle()
+			s.mu.Lock()
+			var sp [][8]byte
+			sp = append(sp, s.srvPings[before:]...)
+			s.mu.Unlock()
+			if len(sp) == 0 {
+				x.note("no keep-alive PING after %v of silence", d.ReadIdle)
+				break
+			}
+			s.mu.Lock()
+			s.ev["server_keepalive_pings_seen"]++
+			s.mu.Unlock()
+			steps := []int{0, 1, 2} // 0: client PING with other data, 1: client PING with the same data, 2: the ACK
+			rng.Shuffle(len(steps), func(i, j int) { steps[i], steps[j] = steps[j], steps[i] })
+			for _, st := range steps {
+				switch st {
+				case 0:
+					x.ping()
+				case 1:
+					s.cliPing(sp[0])
+					x.note("PING %x (same data as the server's outstanding PING)", sp[0])
+					s.mu.Lock()
+					s.ev["client_pings_with_data_of_outstanding_server_ping"]++
+					s.mu.Unlock()
+				case 2:
+					s.cliPingAck(sp[0])
+					x.note("PING ACK %x", sp[0])
+				}
+				if rng.IntN(2) == 0 {
+					s.settle()
+				}
+			}
+			if rng.IntN(2) == 0 {
+				x.openGet(false)
+			}
+		}
 	case "settings-ack-min":
 		// minimal deterministic history for "two SETTINGS while a frame write is in flight"
 		s.setCap(1000)
@@ -565,13 +615,20 @@ func vsrvC15Session(r *verifrt.R, c *verifrt.Case, mode string) {
 		d.Steps = rng.IntN(30)
 		d.Cap = 0
 	}
+	if mode == "server-ping" {
+		d.ReadIdle = time.Duration(vsrvPick(rng, 1, 10, 30, 300)) * time.Second
+	}
 	if mode == "settings-ack-min" {
 		d.Steps, d.InitWin, d.Sched, d.Adv = 0, 65535, "", 8
 	}
 	c.Describe(d)
 	var s *vsrvSession
 	inner, outer := vsrvBubble(r.T, func() {
-		s = vsrvNewSession(vsrvConfig{Groups: vsrvGrpState, Sched: d.Sched, MaxConcurrentStreams: d.Adv, S2CCap: d.Cap})
+		cfg := vsrvConfig{Groups: vsrvGrpState, Sched: d.Sched, MaxConcurrentStreams: d.Adv, S2CCap: d.Cap}
+		if mode == "server-ping" {
+			cfg.Tune = func(h1 *http.Server, h2 *Server) { h2.ReadIdleTimeout = d.ReadIdle }
+		}
+		s = vsrvNewSession(cfg)
 		s.start()
 		vsrvC15Script(s, rng, d)
 		s.finish()
@@ -620,7 +677,7 @@ func TestVerif_C15(t *testing.T) {
 	vsrvGoroutineTracking(false)
 	n := r.N(500, 15000)
 	r.Cases("directed-settings-ack-min", 1, func(c *verifrt.Case) { vsrvC15Session(r, c, "settings-ack-min") })
-	for _, m := range []string{"over-limit", "early-reset", "malformed", "settings-during-write"} {
+	for _, m := range []string{"over-limit", "early-reset", "malformed", "settings-during-write", "server-ping"} {
 		m := m
 		r.CasesParallel("directed-"+m, n/10, 0, func(c *verifrt.Case) { vsrvC15Session(r, c, m) })
 	}
@@ -637,6 +694,7 @@ func TestVerif_C15(t *testing.T) {
 	r.Require("malformed_rejected_by_rst_stream", 100)
 	r.Require("malformed_rejected_by_4xx", 50)
 	r.Require("server_ping_acks", 300)
+	r.Require("client_pings_with_data_of_outstanding_server_ping", 20)
 	r.Require("server_settings_acks", 500)
 	r.Require("quiescent_points_evaluated", 2000)
 }
